@@ -16,7 +16,8 @@
    201ba78; the model follows the repaired code and they are now covered by
    the plain canonical theorems. *)
 From VF.C14 Require Import Rlp RlpProofs Typed TypedProofs Model ModelProofs Bridge.
-From VF.gen Require Import C14Schemas.
+From Coq Require Import String.
+From VF.gen Require Import C14Schemas C14CallSites.
 Local Open Scope N_scope.
 
 (* ---- 1. the item codec ---------------------------------------------------------- *)
@@ -129,6 +130,65 @@ Print Assumptions C14_finding_evidence_sorted_partial.
 (* partial: the converse (an accepted entry list that is not strictly increasing
    is re-written differently) is exhibited by a witness (Bridge.w_evidence_unsorted)
    but not proved in general. *)
+
+(* ---- 3b. stream-style call sites ---------------------------------------------------------- *)
+(* rlp.Decode on a reader / p2p Msg.Decode accept exactly: the canonical encoding
+   of the decoded value (outside the lenient places) followed by an arbitrary
+   unread rest.  That rest is the open finding "trailing bytes tolerated"; the
+   sites that behave so are pinned by C14_tolerant_call_sites_exact, and the
+   consensus / staking entry points are proved (from the source text) to use
+   the strict rlp.DecodeBytes. *)
+Theorem C14_stream_accept_is_canonical_prefix :
+  forall s b v rest, wf_schema s = true -> decode_stream_t s b = Some (v, rest) ->
+    exists it, b = encode it ++ rest /\ of_item cdec s it = Some v /\ item_ok it = true /\
+               (lenient_t s it = false -> encode_t s v = Some (encode it)).
+Proof. exact stream_accept_prefix. Qed.
+Print Assumptions C14_stream_accept_is_canonical_prefix.
+
+Theorem C14_tolerant_call_sites_exact :
+  tolerant_sites = [
+  ("consensus/ucon/vote_cache.go", "ReadVoteData");
+  ("core/genesis.go", "decodePrealloc");
+  ("core/genesis.go", "decodeValidators");
+  ("core/rawdb/accessors_chain.go", "ReadBody");
+  ("core/rawdb/accessors_chain.go", "ReadHeader");
+  ("core/state/iterator.go", "NodeIterator.step");
+  ("core/state/sync.go", "NewStateSync");
+  ("core/tx_journal.go", "txJournal.load");
+  ("p2p/message.go", "Msg.Decode");
+  ("you/handler.go", "ProtocolManager.handleBlockBodiesMsg");
+  ("you/handler.go", "ProtocolManager.handleGetBlockBodiesMsg");
+  ("you/handler.go", "ProtocolManager.handleGetBlockMsg");
+  ("you/handler.go", "ProtocolManager.handleGetHeadersMsg");
+  ("you/handler.go", "ProtocolManager.handleGetNodeDataMsg");
+  ("you/handler.go", "ProtocolManager.handleGetReceiptsMsg");
+  ("you/handler.go", "ProtocolManager.handleNewBlockHashMsg");
+  ("you/handler.go", "ProtocolManager.handleNewBlockMsg");
+  ("you/handler.go", "ProtocolManager.handleNewTxMsg");
+  ("you/handler.go", "ProtocolManager.handleNodeDataMsg");
+  ("you/handler.go", "ProtocolManager.handleReceiptsMsg");
+  ("you/handler.go", "ProtocolManager.handleReceiveHeadersMsg");
+  ("you/peer.go", "peer.readStatus");
+  ("you/ucon_handler.go", "UConProtocolManager.handleMsg")]%string.
+Proof. exact tolerant_sites_exact. Qed.
+Print Assumptions C14_tolerant_call_sites_exact.
+
+Theorem C14_consensus_entry_points_strict :
+  forallb (fun p => strict_site (fst p) (snd p))
+    [("consensus/ucon/types.go", "Decode"); ("consensus/ucon/types.go", "Message.DecodePayload");
+     ("consensus/ucon/block_consensus_data.go", "ExtractConsensusData");
+     ("consensus/ucon/ucon_validators.go", "ExtractUconValidators");
+     ("staking/tx_converter.go", "TxConverter.ApplyMessage");
+     ("staking/slash.go", "Staking.replaySlashing")]%string = true.
+Proof. exact consensus_entry_points_strict. Qed.
+Print Assumptions C14_consensus_entry_points_strict.
+
+Example C14_nonvacuous_stream :
+  decode_t S_types_Transaction (w_tx_re ++ [0]) = None /\
+  exists v, decode_stream_t S_types_Transaction (w_tx_re ++ [0]) = Some (v, [0]) /\
+            decode_t S_types_Transaction w_tx_re = Some v.
+Proof. exact w_trailing. Qed.
+Print Assumptions C14_nonvacuous_stream.
 
 (* ---- 4. hostile bytes: the specification decoder is total and linear ------------------ *)
 (* [decode] is a total Coq function (no exception, no divergence) and what it
